@@ -330,7 +330,7 @@ def run_quad(c):
     R_e . (u_{n+1} - u_n) = integral of W(u_{n+1}) - W(u_n), per number of points."""
     g, X, dim, nPe = make_group(c["elemType"], c["A"])
     u1 = displacement(X, dim, c["G"], c["pert"], c["amp"])
-    u0 = displacement(X, dim, c["G0"], c["pert"][::-1], c["amp"])
+    u0 = displacement(X, dim, c["G0"], c["pert"] if c.get("same_pert") else c["pert"][::-1], c["amp"])
     mat = make_law(c["law"], dim, c["params"], c.get("T1"), c.get("T2"))
     mt = MatrixType.rigi
     wJ = np.asarray(g.Get_weightedJacobian_e_pg(mt))
@@ -345,6 +345,13 @@ def run_quad(c):
         out["defect"][str(npts)] = abs(float(R[0] @ (u1 - u0)) - dW) / scale
         nodes, weights = getattr(NL, "__clenshaw_curtis")(npts)
         out["wsum"][str(npts)] = float(sum(weights))
+    # adaptive path: the operator's own acceptance contract  sum_p V |S:de - dW| <= tol * sum_p V |dW|  per element,
+    # unless the cap maxPoints = 33 was reached
+    out["adaptive"] = {}
+    ref = float((wJ * np.abs(W1 - W0)).sum())
+    for tol in c.get("energyTols", []):
+        _, R, npts_e = NL.TimeQuadratureStressTensor(mat, S(u0), S((u0 + u1) / 2), S(u1), 0.5, 1, tol)
+        out["adaptive"][repr(tol)] = {"abs_defect": abs(float(R[0] @ (u1 - u0)) - dW), "ref": ref, "npts": int(np.max(npts_e))}
     return out
 
 
@@ -375,6 +382,7 @@ def run_drift(c):
     program = c.get("program") or ["solve", "save"] * c["nStep"]
     snaps = []          # per solve: (v_before, W_before, v_after, W_after)
     M = None
+    npts_max = 0
     for op in program:
         if op == "solve":
             vb, Wb = simu._Get_v_n(pt).copy(), float(simu._Calc_W())
@@ -382,6 +390,8 @@ def run_drift(c):
             if M is None:
                 _, _, M, _ = simu.Get_K_C_M_F(pt)
             snaps.append((vb, Wb, simu._Get_v_n(pt).copy(), float(simu._Calc_W())))
+            if simu._HyperElastic__nPts_e is not None:
+                npts_max = max(npts_max, int(np.max(simu._HyperElastic__nPts_e)))
         elif op == "save":
             simu.Save_Iter()
         elif op[0] == "set_iter":
@@ -396,7 +406,7 @@ def run_drift(c):
     energies = [E0] + [a for _, a in steps]
     step_defect = max(abs(a - b) for b, a in steps) / abs(E0)
     umax = float(np.abs(simu.displacement).max())
-    return {"id": c["id"], "energies": energies, "step_defect": step_defect, "nsolves": len(steps), "umax": umax, "W_end": float(simu._Calc_W())}
+    return {"id": c["id"], "energies": energies, "step_defect": step_defect, "nsolves": len(steps), "npts_max": npts_max, "umax": umax, "W_end": float(simu._Calc_W())}
 
 
 def main():
